@@ -87,6 +87,20 @@ func check(sc scen) func(obs any) (string, string) {
 				return "forward for an unregistered address delivered", fmt.Sprintf("forward %d for %s", i, c.Want)
 			}
 		}
+		// every forward for an address whose listeners have all been closed (or that nobody
+		// listens on) must have been answered by now: handed to an Accept or rejected;
+		// otherwise the peer's channel open hangs for ever
+		open := map[string]bool{}
+		for _, l := range sc.ls {
+			if !l.Close {
+				open[l.Network+"|"+l.Addr] = true
+			}
+		}
+		for i, c := range r.Chans {
+			if !open[c.Want] && c.GotBy == "" && !c.Rejected {
+				return "forward for a closed listener neither delivered nor rejected (the peer's channel open is never answered)", fmt.Sprintf("forward %d for %s", i, c.Want)
+			}
+		}
 		for i, l := range sc.ls {
 			if l.Close && !r.CloseReturned[i] {
 				return "Close did not return", fmt.Sprint(i)
